@@ -126,9 +126,9 @@ func c12Run(c *core.Ctx) {
 	var labels []string
 	labels = append(labels, c12RealLabels...)
 	nreal := len(labels)
-	maxl := 2
+	maxl := 3
 	if c.Thorough() {
-		maxl = 3
+		maxl = 4
 	}
 	var rec func(s []byte)
 	rec = func(s []byte) {
@@ -184,8 +184,8 @@ func c12Run(c *core.Ctx) {
 					}
 				}
 				for si, sp := range c12Spells {
-					if !real && !c.Thorough() && (si != (li+pi)%3) {
-						continue // quick: one spelling per (label, prologue) for synthetic labels, rotating
+					if !real && (si != (li+pi)%3) && (!c.Thorough() || len(L) > 3) {
+						continue // one spelling per (label, prologue), rotating, for synthetic labels (all spellings in thorough up to length 3)
 					}
 					decl := form.tmpl
 					decl = strings.ReplaceAll(decl, "%M", sp.f("meta"))
